@@ -231,43 +231,7 @@ func checkC08(c *Ctx) {
 	checkMarkUnconditional(c, "C08.9", 1)
 
 	// ---- C08.6 an expired registration stops matching: lookups are computed from the live table on every call
-	r.Rule("C08.6", "connection lookups are computed from the live registration table on every call (no memoised set survives a removal)", 1)
-	if f := c.fn("C08.6", "pkg/station/lib", "RegisteredDecoys", "getRegistrations"); f != nil {
-		n := 0
-		eachInstr(f, func(in ssa.Instruction) {
-			ret, ok := in.(*ssa.Return)
-			if !ok || len(ret.Results) == 0 || in.Block().Comment == "recover" {
-				return
-			}
-			n++
-			rv := returnedValue(ret, 0, nil)
-			fresh := false
-			var chk func(v ssa.Value, d int) bool
-			chk = func(v ssa.Value, d int) bool {
-				if d > 6 {
-					return false
-				}
-				switch x := v.(type) {
-				case *ssa.MakeMap:
-					return true
-				case *ssa.Phi:
-					for _, e := range x.Edges {
-						if !chk(e, d+1) {
-							return false
-						}
-					}
-					return len(x.Edges) > 0
-				}
-				return false
-			}
-			fresh = chk(rv, 0)
-			r.Check(fresh, "C08.6", "getRegistrations: the returned set is built in this call", in.Pos(), fnName(f), "make(map) in the same call",
-				"getRegistrations returns "+firstN(pathOf(rv), 60)+", a stored set: removeRegistration deletes from r.decoys, so a registration that has expired is still handed to connection matching until that stored set is rebuilt")
-		})
-		if n == 0 {
-			r.Unk("C08.6", "getRegistrations: returns", f.Pos(), fnName(f), "no return found")
-		}
-	}
+	checkLiveLookup(c, "C08.6", "removeRegistration deletes from r.decoys, so a registration that has expired is still handed to connection matching until that stored set is rebuilt")
 
 	// ---- C08.4 activation
 	r.Rule("C08.4", "markActive flips the record found under the C08.1 key to used; the connection handler calls MarkActive on match", 2)
@@ -639,4 +603,47 @@ func checkRemovalUnconditional(c *Ctx, rule string) {
 		}
 	}
 
+}
+
+// checkLiveLookup: the set of registrations handed to connection matching is computed from the live table on every
+// call; a memoised set survives removals, expiry and validity changes (shared by C08.6 and C04.10).
+func checkLiveLookup(c *Ctx, rule, why string) {
+	r := c.R
+	r.Rule(rule, "connection lookups are computed from the live registration table on every call (no memoised set survives a removal)", 1)
+	if f := c.fn(rule, "pkg/station/lib", "RegisteredDecoys", "getRegistrations"); f != nil {
+		n := 0
+		eachInstr(f, func(in ssa.Instruction) {
+			ret, ok := in.(*ssa.Return)
+			if !ok || len(ret.Results) == 0 || in.Block().Comment == "recover" {
+				return
+			}
+			n++
+			rv := returnedValue(ret, 0, nil)
+			fresh := false
+			var chk func(v ssa.Value, d int) bool
+			chk = func(v ssa.Value, d int) bool {
+				if d > 6 {
+					return false
+				}
+				switch x := v.(type) {
+				case *ssa.MakeMap:
+					return true
+				case *ssa.Phi:
+					for _, e := range x.Edges {
+						if !chk(e, d+1) {
+							return false
+						}
+					}
+					return len(x.Edges) > 0
+				}
+				return false
+			}
+			fresh = chk(rv, 0)
+			r.Check(fresh, rule, "getRegistrations: the returned set is built in this call", in.Pos(), fnName(f), "make(map) in the same call",
+				"getRegistrations returns "+firstN(pathOf(rv), 60)+", a stored set: "+why)
+		})
+		if n == 0 {
+			r.Unk(rule, "getRegistrations: returns", f.Pos(), fnName(f), "no return found")
+		}
+	}
 }
